@@ -395,6 +395,8 @@ Proof.
   destruct (c_kind rb); try discriminate.
   destruct (c_fields rb); try discriminate.
   destruct (c_orig rb); try discriminate.
+  destruct (match c_kind rt, c_fields rt with KArray, [_] => false | KArray, _ => true | _, _ => false end);
+    try discriminate.
   rdesp H as s1 a Q1.
   pose proof (customize_plain_derived _ _ _ _ _ Q1) as D.
   destruct D as [D1 [D2 [D3 [D4 D5]]]]. subst a. pose proof (D4 I) as I1.
